@@ -454,6 +454,7 @@ func RunC03(c *Ctx, r *Report) {
 	w.completeRule(r, prefix+"complete", "ed")
 	w.nestedDispatchRule(r, prefix+"nested-dispatch")
 	c.valueGuardRule(r, prefix+"value-guards")
+	c.encodeTotality(r, prefix)
 	c.akaRules(r, prefix, "roundtrip")
 }
 
